@@ -15,6 +15,12 @@
 //	             from the raw coordinates), and the observers (SetXYZ, GetPublicKey, Neg, IsValid, DecompressPoint).
 //	curve tables -in <lines> -every N -workers N
 //	    every line is {"table","i","j","scalar":{c,sh,neg,sum}}: the embedded table entry must be scalar*G.
+//	curve limbs -in <lines> -seed N -workers N
+//	    every line is {"l":[5 symbolic limb values],"v":{kind,c},"m":magnitude,"ops":[...]}: the raw limb pattern is
+//	    fed through the verif-only setter to every operation the model allows at that magnitude.
+//	curve lift -n N -seed N -workers N
+//	    decompression (SetXO, ParsePubkey, ParseXOnlyPubkey, DecompressPoint, RecoverPublicKey) of every point of
+//	    two runs of n consecutive multiples of G (k = 1..n and a seeded start).
 //	curve sweep -n N -seed N -workers N
 //	    arithmetic-progression sweeps of ECmultGen / BaseMultiply / Multiply / BaseMultiplyAdd / GetPublicKey and
 //	    random ECmult against the reference; the wNAF and lambda-split identities on the real helpers.
@@ -181,7 +187,7 @@ func safely(f func()) (p string) {
 
 func main() {
 	if len(os.Args) < 2 {
-		fmt.Fprintln(os.Stderr, "usage: curve selftest|replay|tables|sweep ...")
+		fmt.Fprintln(os.Stderr, "usage: curve selftest|replay|tables|limbs|lift|sweep ...")
 		os.Exit(2)
 	}
 	fs := flag.NewFlagSet(os.Args[1], flag.ExitOnError)
@@ -206,6 +212,10 @@ func main() {
 		tables(out, *in, *every, *workers)
 	case "sweep":
 		sweep(out, *seed, *n, *workers)
+	case "limbs":
+		limbs(out, *in, *seed, *workers)
+	case "lift":
+		lift(out, *seed, *n, *workers)
 	default:
 		fmt.Fprintln(os.Stderr, "unknown command", os.Args[1])
 		os.Exit(2)
